@@ -109,6 +109,20 @@ PROPS = {
                 trusted=REALS + ["float-level agreement of numpy.power / casadi pow etc. is dynamic only"]),
 }
 
+# T12: the layout functions of ToFunction.v proved equal to the regenerated compile helpers
+COMPG_TRUST = ("translator compilegen.py (T12): the four compile helpers of engines/casadi.py executed symbolically from their AST into "
+               "gen/CompileGen.v over PySupport.v; the layout functions of ToFunction.v are PROVED equal to it for every integer level "
+               "(props/CompileGen.v); trusted: PySupport.v as model of dict / list / str, the unrolling of loops over literal tuples of "
+               "names (aliasing), `for k, v in D.items(): D[k] = f(v)` as a map over values, cs.vcat / cs.vertcat as one stacking function, "
+               "el.name and get_flow as functions of the element; to_function's own body (dict comprehensions, _filter_vars, the "
+               "cs.Function call) stays pinned")
+for _pid in ("C03", "C04", "C05", "C16"):
+    _m = dict(PROPS[_pid])
+    _m["extra_prop_files"] = list(_m.get("extra_prop_files", [])) + ["props/CompileGen.v"]
+    _m["generators"] = list(_m.get("generators", [])) + ["T-compile"]
+    _m["trusted"] = list(_m.get("trusted", [])) + [COMPG_TRUST]
+    PROPS[_pid] = _m
+
 # source pins (translator/pins.py): the hand-written models that are tied by sampling only have the text they were
 # written from pinned, so that no edit of it goes unnoticed
 PINS = {"compile": ["C03", "C04", "C05", "C16", "C19", "C13"], "selection": ["C13"], "cache": ["C08"],
